@@ -7,7 +7,7 @@ RULE = ("seg.row tin ...: one line per incoming type (all 256), each line = 256 
         "(event ids equal/different x PTS values equal/different x segment_num equal/different from segments_expected x "
         "{no sub-segments, sub_num = sub_expected, sub_num <> sub_expected}) through the real CanClose on descriptors built "
         "with the public API; the canonical value set plus value sets that differ only in high bits and signals without "
-        "PTS; seg.inout: IsIn/IsOut of all 256 types; seg.eqm: Equal on every ordered pair of a family made of a base "
+        "PTS; seg.close1: random descriptor pairs (rule types, random field values, equal/near-equal event ids and PTS); seg.inout: IsIn/IsOut of all 256 types; seg.eqm: Equal on every ordered pair of a family made of a base "
         "descriptor and all its single-field variants (also checks symmetry data and that Equal does not modify its "
         "arguments). A line is non-trivial when its incoming type has at least one rule (seg.row), always for the others.")
 EXHAUSTIVE = True
@@ -78,6 +78,17 @@ def gen(rng, tier):
         out.append(row(tin, 7, 0x80000007, 0, 1 << 32, 0, 128, 0, 1, "row-nopts-incoming"))
         out.append(row(tin, 7, 0x107, 90001, 90000, 254, 0, 1, 0, "row-nopts-open"))
         out.append(row(tin, 7, 8, 0, 2, 1, 3, 0, 0, "row-nopts-both"))
+    # 1b. random descriptor pairs through single CanClose calls (values not tied to the grid's representatives)
+    rt = sorted(RULE_TYPES)
+    for _ in range(3000 if tier == "quick" else 100000):
+        a = dict(id=0, ty=rng.choice(rt), event=rng.randrange(2 ** 32), haspts=rng.choice([1, 1, 0]), ptsv=rng.randrange(2 ** 33),
+                 segnum=rng.randrange(256), segexp=rng.randrange(256), hassub=rng.randrange(2), subnum=rng.randrange(256), subexp=rng.randrange(256))
+        b = dict(id=1, ty=rng.choice(rt), event=rng.choice([a["event"], a["event"], rng.randrange(2 ** 32), a["event"] ^ (1 << rng.randrange(32))]),
+                 haspts=rng.choice([1, 1, 0]), ptsv=rng.choice([a["ptsv"], a["ptsv"], rng.randrange(2 ** 33), a["ptsv"] ^ (1 << rng.randrange(33))]),
+                 segnum=rng.randrange(256), segexp=rng.randrange(256), hassub=rng.randrange(2), subnum=rng.randrange(256), subexp=rng.randrange(256))
+        if rng.random() < 0.5:
+            a["segexp"] = a["segnum"]
+        out.append(Case("seg.close1 %s %s" % (dline(a), dline(b)), kind="close-random", theorem="C19_can_close_abstraction"))
     # 2. classification
     out.append(Case("seg.inout", kind="inout", theorem="C19_in_out_lists"))
     # 3. Equal grid
